@@ -102,7 +102,7 @@ def _serialize_steps(steps, xml_result):
 def _serialize_result(result, xml_result):
     if result.status:
         xml_result.attrib["status"] = result.status
-    if result.status_details:
+    if result.status_details is not None:
         xml_result.attrib["status-details"] = result.status_details
     xml_result.attrib["start-time"] = _serialize_time(result.start_time)
     if result.end_time is not None:
@@ -122,7 +122,7 @@ def _serialize_node_metadata(obj, xml_node):
         xml_property.text = value
     for link in obj.links:
         xml_link = make_xml_child(xml_node, "link")
-        if link[1]:
+        if link[1] is not None:
             xml_link.attrib["name"] = link[1]
         xml_link.text = link[0]
 
